@@ -82,7 +82,7 @@ func RunC03(tier string, seed int64, outDir string, replay string) (*core.Result
 	res.Rule = "random programs (shared / nested / diamond-shaped named fragments over several operations, abstract-typed fields with and without explicit __typename at any depth incl. inside inline fragments, aliases, arguments with literals of every kind incl. escapes and block strings, variables with defaults, @skip/@include, @genqlient comment directives); for every operation the emitted document (exported-operations JSON, cross-checked with the <Op>_Operation constant) is re-parsed and re-validated by gqlparser and compared with the model's prediction in-kernel; non-trivial = one operation of an accepted program; distinct by (program, operation)"
 	n := 60
 	if tier == "thorough" {
-		n = 600
+		n = 2000
 	}
 	rng := core.NewRng(seed)
 	var cases []*c03Case
